@@ -7,7 +7,7 @@
    its threshold; open -> half-open on the first call after wait_duration_in_open; half-open ->
    closed after the permitted successes, -> open on any failure; reset; forced transitions).
    Only statements, `exact`, and Print Assumptions. *)
-From TR Require Import Lib.Base Model.Circuit Model.CircuitSpec Proof.CircuitSpec.
+From TR Require Import Lib.Base Model.Circuit Model.CircuitSpec Proof.CircuitSpec Proof.CircuitSeq.
 
 Theorem C04_refines_spec :
   forall (cf : cfg) (h : list hev),
@@ -24,3 +24,65 @@ Theorem C04_views_agree :
            (run_seq cf (0, new_circuit) h).
 Proof. exact views_agree. Qed.
 Print Assumptions C04_views_agree.
+
+(* The sequential driver is the service-level model (the one run against the implementation)
+   used by one client at a time.  One call = first poll (try_acquire), the clock advances by
+   the latency, the inner service completes with outcome o, second poll (record): the
+   circuit ends up exactly as seq_step's HCall says, with the same invoked flag; the clock
+   too when the call was admitted (a rejected caller that lets l ms pass anyway has waited:
+   seq_step's rejected call takes no time). *)
+Theorem C04_service_sequential_call :
+  forall (cf : cfg) (s : st) (i : nat) (o : outcome) (l : Z),
+    cs s i = Created -> gate s i = None -> o <> OPanic -> 0 <= l ->
+    let s1 := step_st cf s (Poll i) in let s2 := step_st cf s1 (Advance l) in
+    let s3 := step_st cf s2 (Complete i o) in let s4 := step_st cf s3 (Poll i) in
+    let '(p', inv) := seq_step cf (now s, circ s) (HCall (fail_of o) l) in
+    circ s4 = snd p' /\
+    now s4 = (if started (snd (step cf s (Poll i))) then fst p' else fst p' + l) /\
+    Some (started (snd (step cf s (Poll i)))) = inv.
+Proof. exact sequential_call. Qed.
+Print Assumptions C04_service_sequential_call.
+
+(* admitted call: the four service steps are exactly seq_step (circuit, clock, invoked) *)
+Theorem C04_service_sequential_call_admitted :
+  forall (cf : cfg) (s : st) (i : nat) (o : outcome) (l : Z),
+    cs s i = Created -> gate s i = None -> o <> OPanic ->
+    snd (try_acquire (now s) cf (circ s)) = true ->
+    let s1 := step_st cf s (Poll i) in let s2 := step_st cf s1 (Advance l) in
+    let s3 := step_st cf s2 (Complete i o) in let s4 := step_st cf s3 (Poll i) in
+    seq_step cf (now s, circ s) (HCall (fail_of o) l) = ((now s4, circ s4), Some true) /\
+    started (snd (step cf s (Poll i))) = true /\
+    (forall j, cs s4 j = upd (cs s) i Done j) /\ gate s4 = upd (gate s) i (Some o).
+Proof. exact sequential_call_admitted. Qed.
+Print Assumptions C04_service_sequential_call_admitted.
+
+(* rejected call: the first poll is the whole call; the inner service is not invoked *)
+Theorem C04_service_sequential_call_rejected :
+  forall (cf : cfg) (s : st) (i : nat) (f : bool) (l : Z),
+    cs s i = Created -> snd (try_acquire (now s) cf (circ s)) = false ->
+    let s1 := step_st cf s (Poll i) in
+    seq_step cf (now s, circ s) (HCall f l) = ((now s1, circ s1), Some false) /\
+    started (snd (step cf s (Poll i))) = false /\
+    (forall j, cs s1 j = upd (cs s) i Done j) /\ gate s1 = gate s.
+Proof. exact sequential_call_rejected. Qed.
+Print Assumptions C04_service_sequential_call_rejected.
+
+(* whole histories: a sequential client (fresh caller id per call; a rejected call returns at
+   once) drives the service model from init with script_of_history; what it observes after
+   each history event (state, state_sync, metrics, invoked flag — service_obs) is what the
+   documented machine prescribes.  oc chooses the inner result realising a classifier verdict. *)
+Theorem C04_service_history_refines_spec :
+  forall (cf : cfg) (oc : bool -> outcome),
+    (forall f, fail_of (oc f) = f /\ oc f <> OPanic) ->
+    forall h : list hev,
+      wf cf = true ->
+      service_obs cf oc init 0 h = run_spec cf (0, SClosed []) h.
+Proof. exact service_history_refines_spec. Qed.
+Print Assumptions C04_service_history_refines_spec.
+
+(* service_obs observes a genuine run of the service model's step over script_of_history *)
+Theorem C04_service_history_is_a_run :
+  forall (cf : cfg) (oc : bool -> outcome) (s : st) (i : nat) (h : list hev),
+    fold_left (step_st cf) (script_of_history cf oc s i h) s = final_state cf oc s i h.
+Proof. exact script_runs. Qed.
+Print Assumptions C04_service_history_is_a_run.
